@@ -71,7 +71,7 @@ CLAIMED["C16"] = (
 CLAIMED["C18"] = (
     "model_checking",
     "stateless schedule exploration of real OS threads running real TableManager methods under a baton scheduler (iterative preemption bounding, 16 parallel explorers), plus explicit-state BFS over subscribe / unsubscribe points in sequential histories",
-    "Schedules: 9 scenarios of subscribe(snapshot) against concurrent insert / remove / replace on the same and on another shard, peer drop + PeerDown, soft_reset_in under a changed import policy (alone and against an insert of the same peer), GR stale purge against a re-announcement, restart-timer drop, LLGR start + purge, a second subscriber coming and going; scheduling points are cfg-guarded hooks before every shard lock (a thread is enabled only when the lock it is about to take is free) and at every subscribers.load()/rcu(). Quick: every schedule with <= 3 preemptions; thorough: unbounded, i.e. ALL interleavings at hook granularity (the level at which no alternative is left is reported). After every complete execution fold(snapshot + live events) must equal the pre- and post-policy Adj-RIB-In of all shards; a failing schedule is re-executed and must fail identically. Histories: BFS depth 6 (thorough 10) over insert (accepted / rejected by policy) / remove / peer drop / GR drop / reconnect / stale purge / timer drop / LLGR start / LLGR purge / soft_reset_in / policy toggle / deferral / subscribe / unsubscribe with the folded view compared after every step. BMP station: BFS depth 7 (thorough 10) over session up / announce / withdraw / session down (atomic, and split into SessionDown and its later PeerDown event so that a station can attach in between; plain and with GR) / stale purge / restart-timer drop of two neighbours and attach / detach of a loopback BMP station served by the real BMP client (subscribe(snapshot), initial Peer Up burst, snapshot flush, live loop): Peer Down reaches the station only for a peer whose Peer Up it was sent, and for every peer the station holds as up its folded pre- and post-policy Adj-RIB-In equals the RIB's.",
+    "Schedules: 9 scenarios of subscribe(snapshot) against concurrent insert / remove / replace on the same and on another shard, peer drop + PeerDown, soft_reset_in under a changed import policy (alone and against an insert of the same peer), GR stale purge against a re-announcement, restart-timer drop, LLGR start + purge, a second subscriber coming and going; scheduling points are cfg-guarded hooks before every shard lock (a thread is enabled only when the lock it is about to take is free) and at every subscribers.load()/rcu(). Quick: every schedule with <= 3 preemptions; thorough: unbounded, i.e. ALL interleavings at hook granularity (the level at which no alternative is left is reported). After every complete execution fold(snapshot + live events) must equal the pre- and post-policy Adj-RIB-In of all shards, where the events up to EndOfSnapshot are accumulated by the BMP client's own apply_snapshot / flush_peer_snapshot (in-crate include in bmp.rs) and the live events are applied one by one; a failing schedule is re-executed and must fail identically. Histories: BFS depth 6 (thorough 10) over insert (accepted / rejected by policy) / remove / peer drop / GR drop / reconnect / stale purge / timer drop / LLGR start / LLGR purge / soft_reset_in / policy toggle / deferral / subscribe / unsubscribe with the folded view compared after every step. BMP station: BFS depth 7 (thorough 10) over session up / announce / withdraw / session down (atomic, and split into SessionDown and its later PeerDown event so that a station can attach in between; plain and with GR) / stale purge / restart-timer drop of two neighbours and attach / detach of a loopback BMP station served by the real BMP client (subscribe(snapshot), initial Peer Up burst, snapshot flush, live loop): Peer Down reaches the station only for a peer whose Peer Up it was sent, and for every peer the station holds as up its folded pre- and post-policy Adj-RIB-In equals the RIB's.",
     "std::sync::Mutex, arc-swap and tokio channels are trusted to be linearizable at hook granularity (no weak-memory exploration). 'Peer-down only after peer-up' is asserted at the BMP station, not at the TableManager (the initial PeerUp burst is produced by the BMP client from Global.peers); there the table side is driven through the calls PeerSession makes and PeerState.session_addrs is set / cleared as apply_outputs does. While a peer's routes are retained as stale its entries are not compared (the statement does not say whether a subscriber that was told PeerDown still lists them); they are compared again after the purge. Time caps exist and are reported if hit (none is at quick).",
     "DESIGN.md §5 C18",
 )
